@@ -51,16 +51,21 @@ func (e *envoy) ztFirstRequest(s *stream) {
 			}
 		}
 	}
+	// c05: a reconnecting ztunnel may present the nonce it retained from the previous stream
+	nonce := ""
+	if s.keepNonce {
+		nonce = e.nonce["WDS"]
+	}
 	if e.zt == "wildcard" {
 		var sub []string
 		if e.explicit {
 			sub = []string{"*"}
 		}
-		s.sendDelta("WDS", sub, nil, "", initial)
+		s.sendDelta("WDS", sub, nil, nonce, initial)
 		return
 	}
 	// on-demand: subscribe to and unsubscribe from "*" (= not wildcard), plus the names wanted
-	s.sendDelta("WDS", append([]string{"*"}, e.want...), []string{"*"}, "", initial)
+	s.sendDelta("WDS", append([]string{"*"}, e.want...), []string{"*"}, nonce, initial)
 }
 
 func (e *envoy) ztSubscribe(names []string) {
@@ -675,8 +680,14 @@ func genC05Zt(r *wire.Rng) *History {
 		w.note(o)
 	}
 	var want []string
-	c := &CutSpec{Mode: wire.Pick(r, []string{"quiet", "quiet", "after-change", "at-response", "at-response"})}
+	c := &CutSpec{Mode: wire.Pick(r, []string{"quiet", "quiet", "after-change", "at-response", "at-response", "initial"})}
 	n := 1 + r.Intn(5)
+	if c.Mode == "initial" {
+		// the first stream dies at / before its first response: the clients come back holding little or nothing
+		n = 0
+		c.K = r.Intn(2)
+		c.Fate = wire.Pick(r, []string{"applied", "lost", "failed-send"})
+	}
 	for i := 0; i < n; i++ {
 		o := genZtOp(r, w, &want)
 		w.note(o)
@@ -691,7 +702,7 @@ func genC05Zt(r *wire.Rng) *History {
 			}
 		}
 	}
-	if c.Mode != "quiet" {
+	if c.Mode != "quiet" && c.Mode != "initial" {
 		k := 1 + r.Intn(2)
 		for i := 0; i < k; i++ {
 			o := kubeOp()
@@ -716,6 +727,18 @@ func genC05Zt(r *wire.Rng) *History {
 	}
 	c.Second = r.Chance(1, 3)
 	c.StaleVersions = r.Chance(1, 3)
+	c.KeepNonce = r.Chance(1, 2)
+	c.Probe = r.Chance(1, 4)
+	if (c.Mode == "quiet" || c.Mode == "after-change") && !c.Second && r.Chance(1, 2) {
+		c.Overlap = true
+	}
+	if c.Overlap || r.Chance(1, 3) {
+		for i := 1 + r.Intn(2); i > 0; i-- {
+			o := kubeOp()
+			w.note(o)
+			c.After = append(c.After, o)
+		}
+	}
 	h.Cut = c
 	return h
 }
@@ -740,11 +763,35 @@ func runC05Zt(h *History, stt *stats) result {
 			stt.client(e)
 		}
 	}()
-	for _, e := range both {
-		e.connect(st, connectOpts{})
-	}
-	if !st.quiesce(wc, od) {
-		return timeoutResult("first connection", clientInfo(wc, od))
+	if c.Mode == "initial" {
+		for _, e := range both {
+			if c.K == 0 {
+				e.connect(st, connectOpts{})
+				e.disconnect()
+			} else {
+				e.connect(st, connectOpts{cutAfter: c.K, cutDrop: c.Fate == "lost" || c.Fate == "failed-send", cutErr: c.Fate == "failed-send"})
+			}
+		}
+		deadline := time.Now().Add(settleTime)
+		for !(wc.isDead() && od.isDead()) && time.Now().Before(deadline) {
+			// a live one may simply never see K responses: quiescence ends the wait too
+			var live []activity
+			for _, e := range both {
+				if !e.isDead() {
+					live = append(live, looseActivity{e})
+				}
+			}
+			if st.quiesceFor(calmTime, live...) {
+				break
+			}
+		}
+	} else {
+		for _, e := range both {
+			e.connect(st, connectOpts{})
+		}
+		if !st.quiesce(wc, od) {
+			return timeoutResult("first connection", clientInfo(wc, od))
+		}
 	}
 	for _, ops := range h.Steps {
 		if r := ztApply(st, w, ops, od, stt); r != nil {
@@ -787,6 +834,7 @@ func runC05Zt(h *History, stt *stats) result {
 		}
 	}
 	stt.Cuts["zt-mode:"+c.Mode]++
+	zombies := map[string]*stream{}
 	for _, e := range both {
 		if e.isDead() {
 			stt.Cuts["zt-scripted-response-cut"]++
@@ -794,8 +842,18 @@ func runC05Zt(h *History, stt *stats) result {
 				stt.Cuts["zt-response-"+c.Fate]++
 			}
 		}
-		e.disconnect()
+		if c.Overlap && !c.Second && !e.isDead() {
+			// the server has not noticed the dead stream when the ztunnel comes back
+			zombies[e.label] = e.abandon()
+		} else {
+			e.disconnect()
+		}
 	}
+	defer func() {
+		for _, e := range both {
+			e.closeStream(zombies[e.label])
+		}
+	}()
 	cutLog := clientInfo(wc, od)
 	retained := map[string]held{}
 	for _, e := range both {
@@ -839,8 +897,11 @@ func runC05Zt(h *History, stt *stats) result {
 	if c.StaleVersions {
 		stt.Reconnects["zt-stale-versions"]++
 	}
+	if c.KeepNonce {
+		stt.Reconnects["zt-keeps-nonce"]++
+	}
 	for _, e := range both {
-		e.connect(target, connectOpts{})
+		e.connect(target, connectOpts{keepNonce: c.KeepNonce, probeFirst: c.Probe})
 	}
 	if !target.quiesceLoose(wc, od) {
 		return timeoutResult("after reconnect", merge(clientInfo(wc, od), map[string]any{"cut": cutLog}))
@@ -859,12 +920,61 @@ func runC05Zt(h *History, stt *stats) result {
 	if len(unanswered) > 0 {
 		return result{Clause: "reconnect-request-unanswered", Detail: merge(map[string]any{"unanswered": unanswered}, info())}
 	}
+	if len(zombies) > 0 {
+		stt.Reconnects["zt-overlapping-old-stream"]++
+		for _, e := range both {
+			if zombies[e.label] == nil {
+				continue
+			}
+			if ids := registeredIDs(target, e); len(ids) != 2 {
+				return result{Clause: "overlap-connection-id-reused", Detail: merge(map[string]any{"client": e.label, "registered": ids}, info())}
+			}
+		}
+		for _, e := range both {
+			e.closeStream(zombies[e.label])
+		}
+		if !target.quiesceLoose(wc, od) {
+			return timeoutResult("after the old streams terminated", info())
+		}
+		for _, e := range both {
+			if zombies[e.label] == nil {
+				continue
+			}
+			if ids := registeredIDs(target, e); len(ids) != 1 {
+				return result{Clause: "overlap-connection-unregistered", Detail: merge(map[string]any{"client": e.label, "registered": ids}, info())}
+			}
+		}
+	}
+	if len(c.After) > 0 {
+		// the reconnected streams keep following changes
+		stt.Reconnects["zt-changes-after-reconnect"]++
+		if r := ztApply(target, w, c.After, nil, stt); r != nil {
+			return *r
+		}
+		if !target.quiesceLoose(wc, od) {
+			return timeoutResult("changes after the reconnect", info())
+		}
+	}
 	df, ok := ztSettle(target, stt, wc, od, "rc")
 	if !ok {
 		return timeoutResult("fresh clients", clientInfo(wc, od))
 	}
 	if errs := append(wc.errors(), od.errors()...); len(errs) > 0 {
 		return result{Clause: "harness-client-error", Detail: map[string]any{"phase": "after reconnect", "errors": errs}}
+	}
+	if len(c.After) > 0 {
+		// changes AFTER the reconnect reach the on-demand client through pushes that match subscriptions by resource
+		// name only: the two known classes of C03 (alias key / service member created after the subscription) are a
+		// fact about those pushes, not about the reconnect - C03 reports them; here they are set aside
+		kept := df[:0]
+		for _, d := range df {
+			if d.Kind == "missing" && (strings.HasPrefix(d.Hint, aliasHint) || strings.HasPrefix(d.Hint, memberHint)) {
+				stt.Extra["c03-known-ondemand-class-set-aside"]++
+				continue
+			}
+			kept = append(kept, d)
+		}
+		df = kept
 	}
 	skipped := 0
 	if len(df) > 0 {
@@ -903,6 +1013,7 @@ func runC05Zt(h *History, stt *stats) result {
 	}
 	stt.GoneWhile += gone
 	return result{OK: true, Summary: "c05 zt cut=" + c.Mode + " k=" + itoa(c.K) + " fate=" + c.Fate + " prefix=" + itoa(len(h.Steps)) + " away=" + itoa(len(c.Away)) +
-		" second=" + wire.B(c.Second) + " stale=" + wire.B(c.StaleVersions) + " retained=" + itoa(len(retained["wildcard"]["WDS"])) + "/" +
+		" second=" + wire.B(c.Second) + " stale=" + wire.B(c.StaleVersions) + " overlap=" + wire.B(len(zombies) > 0) + " after=" + itoa(len(c.After)) +
+		" nonce=" + wire.B(c.KeepNonce) + " retained=" + itoa(len(retained["wildcard"]["WDS"])) + "/" +
 		itoa(len(retained["ondemand"]["WDS"])) + " gone=" + itoa(gone) + " want=" + itoa(len(od.want))}
 }
